@@ -6,6 +6,10 @@ CONSTANTS
   Stride = 7919
   Offset = 1
   NS1 = 5000
+  MaxSuffixes = 32
+  MaxSuffixLen = 127
+  PtrLimit = 16384
+  ImplBug = "none"
   ObjDefect = "none"
 INIT MCInit
 NEXT MCNext
